@@ -100,6 +100,24 @@ inline void put_val(std::string& s, glm::qua<T, Q> const& q) {          // logge
     put_word(s, T(q.y)); s.push_back(','); put_word(s, T(q.z)); s.push_back(']');
 }
 
+// ---------------------------------------------------------------- sanitizer monitor (engine E8)
+// Built with clang -fsanitize=undefined,... -fsanitize-recover=all -DVH_UBSAN the runtime calls __ubsan_on_report() for every
+// report; the number of reports since the previous event is logged as the "ub" field of the next event, so undefined behaviour
+// becomes an observed field that the trace specification relates to the documented domain of the call.
+#ifdef VH_UBSAN
+extern "C" void __ubsan_get_current_report_data(const char** OutIssueKind, const char** OutMessage, const char** OutFilename, unsigned* OutLine, unsigned* OutCol, char** OutMemoryAddr);
+inline unsigned& ub_count() { static unsigned n = 0; return n; }
+inline std::string& ub_where() { static std::string w; return w; }
+} extern "C" __attribute__((used, visibility("default"))) void __ubsan_on_report() {          // one translation unit per harness
+    ++vh::ub_count();
+    if (vh::ub_where().empty()) { const char *kind = "", *msg = "", *file = ""; unsigned line = 0, col = 0; char* addr = nullptr;
+        vh::__ubsan_get_current_report_data(&kind, &msg, &file, &line, &col, &addr);
+        std::string f(file ? file : ""); size_t k = f.find("glm/"); std::string w = (k == std::string::npos ? f : f.substr(k)) + ":" + std::to_string(line) + " " + (kind ? kind : "");
+        for (char& c : w) if (c == '"' || c == '\\' || (unsigned char)c < 32) c = ' ';
+        vh::ub_where() = w; }
+} namespace vh {
+#endif
+
 // ---------------------------------------------------------------- event builder
 struct Ev {
     std::string& s;
@@ -115,7 +133,13 @@ struct Ev {
     template<class V> Ev& val(const char* k, V const& v) { close_args(); s += ",\""; s += k; s += "\":"; put_val(s, v); return *this; }
     template<class V> Ev& res(V const& v) { return val("r", v); }
     void close_args() { if (in_args) { s.push_back(']'); in_args = false; } }
-    void emit() { close_args(); s.push_back('}'); out().line_done(); }
+    void emit() {
+        close_args();
+#ifdef VH_UBSAN
+        if (ub_count()) { s += ",\"ub\":"; put_uint(s, ub_count()); s += ",\"ubw\":\""; s += ub_where(); s += "\""; ub_count() = 0; ub_where().clear(); }
+#endif
+        s.push_back('}'); out().line_done();
+    }
 };
 inline void marker(const char* name) { std::string& s = out().buf; s += "{\"e\":\""; s += name; s += "\"}"; out().line_done(); }
 
